@@ -76,6 +76,36 @@ proof fn lemma_chain<'a>(b: Seq<u8>, k: int, ins: Seq<&'a [u8]>, vals: Seq<FlowS
     }
 }
 
+/// C11 (locality of V5): a complete V5 packet decodes to the same header and records, and leaves exactly the
+/// appended bytes, whatever follows it in the buffer -- so V5 packets are `is_local_packet` in the sense of
+/// V.lib.theorems (hypothesis of thm_c11_chain discharged for V5 from the parser's own contract).
+proof fn lemma_rec_prefix(b: Seq<u8>, y: Seq<u8>, o: int)
+    requires 0 <= o, o + 48 <= b.len(),
+    ensures v5_record_dec(b + y, o) == v5_record_dec(b, o),
+{
+    reveal(v5_record_dec);
+}
+pub proof fn thm_c11_v5_local<'a>(b: &'a [u8], by: &'a [u8], y: Seq<u8>, r1: IResult<&'a [u8], V5>, r2: IResult<&'a [u8], V5>)
+    requires
+        b@.len() >= 22, b@.len() == 22 + 48 * (be16(b@, 0) as int),      // b is exactly one complete packet (after its version field)
+        by@ == b@ + y,
+        v5_parse_post(b, r1), v5_parse_post(by, r2),
+    ensures
+        r1 is Ok && r2 is Ok,
+        r1->Ok_0.0@.len() == 0 && r2->Ok_0.0@ == y,
+        r2->Ok_0.1.header == r1->Ok_0.1.header,
+        r2->Ok_0.1.flowsets@ == r1->Ok_0.1.flowsets@,
+{
+    let n = be16(b@, 0) as int;
+    assert(be16(by@, 0) == be16(b@, 0));
+    assert(v5_header_dec(by@, 0) == v5_header_dec(b@, 0)) by { reveal(v5_header_dec); }
+    assert(by@.subrange(22 + 48 * n, by@.len() as int) =~= y);
+    assert forall|k: int| 0 <= k < n implies r2->Ok_0.1.flowsets@[k] == r1->Ok_0.1.flowsets@[k] by {
+        lemma_rec_prefix(b@, y, 22 + 48 * k);
+    }
+    assert(r2->Ok_0.1.flowsets@ =~= r1->Ok_0.1.flowsets@);
+}
+
 impl Header {
 //@ fn expanded static_versions::v5 /impl<'nom> nom_derive::Parse<.*> for Header/ parse_be
 //@   result: r
